@@ -5,6 +5,18 @@ def openMachine (args : List String) (hin hout : IO.FS.Stream) : Option (IO Bool
   match args with
   | ["afifo", k] => k.toNat?.map fun k => serve (numAFifo k false) hin hout
   | ["afifo_buffered", k] => k.toNat?.map fun k => serve (numAFifo k true) hin hout
+  | ["bussync", w, t] => match w.toNat?, t.toNat? with
+    | some w, some t => some (serve (numBusSync w t) hin hout)
+    | _, _ => none
+  | ["bussync1"] => some (serve numBusSync1 hin hout)
+  | ["pulsesync"] => some (serve numPulseSync hin hout)
+  | "afifo_multi" :: cfg =>
+    -- cfg: k or kb (b suffix = buffered), e.g. `afifo_multi 2 2 2b`
+    let parse (w : String) : Option (Nat × Bool) :=
+      match w.toList.reverse with
+      | 'b' :: rest => (String.ofList rest.reverse).toNat?.map (·, true)
+      | _ => w.toNat?.map (·, false)
+    (cfg.mapM parse).map fun c => serve (numAFifoMulti c) hin hout
   | _ => none
 
 def main : IO Unit := mainLoop openMachine (fun _ => none)
